@@ -218,3 +218,34 @@ package expand
 //@ ensures [xor] implies(err == nil && old(b.Op) == syntax.XorAssgn, r == int(assgnOld() ^ assgnArg()))
 //@ ensures [shl] implies(err == nil && old(b.Op) == syntax.ShlAssgn && 0 <= assgnArg() && assgnArg() <= 63, r == int(assgnOld() << uint(assgnArg())))
 //@ ensures [shr] implies(err == nil && old(b.Op) == syntax.ShrAssgn && 0 <= assgnArg() && assgnArg() <= 63, r == int(assgnOld() >> uint(assgnArg())))
+
+// ---- C23: ReadFields. Bash itself is not available as an oracle; what is decided is that the splitting loop keeps a
+// well-formed list of field ranges over the unescaped runes (ordered, inside the line, only the last one open), that
+// the single-variable case trims IFS whitespace without ever cutting into a field, that joining keeps the first n-1
+// fields, and that nothing in the function can panic. The count is what the read builtin passes: -1 for "all fields"
+// (read -a) or the number of variable names, which is at least one. ----
+
+//@ func Config.ifsRune
+//@ props C23
+//@ pure
+
+//@ func Config.ifsWhitespace
+//@ props C23
+//@ pure
+
+//@ func ReadFields
+//@ props C23
+//@ requires [count] n == -1 || n >= 1
+//@ loop 1 invariant [separate-buffers] !sameobj(fpos, runes) && fresh(runes)
+//@ loop 1 invariant [open-field] implies(infield, len(fpos) > 0)
+//@ loop 1 invariant [fields-in-line] all(k, 0, len(fpos), 0 <= fpos[k].start && fpos[k].start <= len(runes) && fpos[k].end <= len(runes))
+//@ loop 1 invariant [closed-fields] all(k, 0, len(fpos), fpos[k].end == -1 || fpos[k].start <= fpos[k].end)
+//@ loop 1 invariant [only-last-open] all(k, 0, len(fpos), k == len(fpos)-1 || fpos[k].end != -1)
+//@ loop 1 invariant [starts-ordered] all(k, 0, len(fpos), fpos[k].start <= fpos[len(fpos)-1].start)
+//@ loop 1 invariant [last-open-iff-infield] implies(len(fpos) > 0, iff(infield, fpos[len(fpos)-1].end == -1))
+//@ loop 1 invariant [disjoint] all(k, 0, len(fpos)-1, fpos[k].end <= fpos[k+1].start)
+//@ loop 2 invariant [trim-left-keeps-field] 0 <= lo && lo <= fpos[0].start
+//@ loop 3 invariant [trim-right-keeps-field] fpos[len(fpos)-1].end <= hi && hi <= len(runes) && 0 <= lo && lo <= fpos[0].start
+//@ loop 4 invariant [all-closed] all(k, 0, len(fpos), 0 <= fpos[k].start && fpos[k].start <= fpos[k].end && fpos[k].end <= len(runes))
+//@ loop 4 invariant [disjoint] all(k, 0, len(fpos)-1, fpos[k].end <= fpos[k+1].start)
+//@ ensures [at-most-n] implies(n >= 1, len(result) <= n)
